@@ -39,6 +39,7 @@ fn main() {
             let code = match id {
                 "C01" => checks::c01::run(&tier, seed),
                 "C02" => checks::c02::run(&tier, seed),
+                "C03" => checks::c03::run(&tier, seed),
                 "C04" => checks::c04::run(&tier, seed),
                 "C05" => checks::c05::run(&tier, seed),
                 "C06" => checks::c06::run(&tier, seed),
@@ -64,6 +65,7 @@ fn main() {
             let ok = match prop.as_str() {
                 "C01" => checks::c01::replay(&doc),
                 "C02" => checks::c02::replay(&doc),
+                "C03" => checks::c03::replay(&doc),
                 "C04" => checks::c04::replay(&doc),
                 "C05" => checks::c05::replay(&doc),
                 "C06" => checks::c06::replay(&doc),
